@@ -25,7 +25,7 @@ CHECKS = {
          "DESIGN.md §3 C04"),
  "C10": ("history monitor: all public routes compared on one reused/cloned render tree over width sequences",
          "Exploration over call histories: one document, one configuration, width sequences with repeats/out-of-order/0/too-narrow values; string_from_read (twice), join(lines_from_read), coloured(identity), and render_to_string/render_to_lines on clones of one tree built once must agree byte for byte (or fail with the same error) at every position of the history.",
-         "Routes are compared inside one process.",
+         "Cross-process determinism is compared on the first 400 cases of a run (two worker processes).",
          "DESIGN.md §3 C10"),
  "C11": ("pair monitor: (width 0, without overflow, with overflow) triples; AST-derived prefix bound",
          "Exploration: width 0 must give TooNarrow; with allow_width_overflow every width>=1 must give Ok (fuel/panic/TooNarrow are violations); an Ok result must be byte-identical with overflow allowed; for table-free grammar documents every overflowing line obeys max(w, P + max(min_wrap_width,5)) with P computed from the generator's AST.",
@@ -80,7 +80,7 @@ CHECKS = {
          "Selectors never target html/body; colour annotations are ignored in the rich comparison.",
          "DESIGN.md §3 C18"),
  "C19": ("reference-model monitor: exhaustive pairs / sampled triples of competing colour declarations + random sheets vs a reference cascade",
-         "Exploration with an exhaustive small scope: every ordered pair (thorough: a large sample of ordered triples) of colour declarations over origin x importance x specificity class x source order on one element, plus random sheets in all origins with inline styles over nested documents; the Colour/BgColour annotations of every element's own token must equal the reference cascade's winners along its ancestor chain.",
+         "Exploration with an exhaustive small scope: every ordered pair and every ordered triple (32^3) of colour declarations over origin x importance x specificity class x source order on one element, plus random sheets in all origins with inline styles over nested documents; the Colour/BgColour annotations of every element's own token must equal the reference cascade's winners along its ancestor chain.",
          "Selector matching is C20's subject; one sheet per origin.",
          "DESIGN.md §3 C19"),
  "C20": ("reference-model monitor: reference selector matcher on the oracle DOM vs colour annotations per element-owned token; exhaustive :nth-child(an+b)",
